@@ -208,6 +208,21 @@ CLAIMED = {
              "are not generated.",
         technique="Rocq proof (refinement of the store to per-token cells over arbitrary histories) + differential correspondence on operation histories",
         design="4 (C18), 9"),
+    "C01": dict(
+        text="Machine-checked theorem over the model of the device's verifyOwner (Fdo/Device.v: checks on TO2.ProveOVHdr, fetching of every "
+             "TO2.OVNextEntry, header HMAC under the device secret, manufacturer-key hash of the credential, entry chain of Fdo/Voucher.v, "
+             "owner key = last entry's key, to1d signature; all decoding with the descriptors reflected from the library's message types): "
+             "whatever bytes the peer and the network deliver, the device goes on to send its own ProveDevice only if every check the "
+             "property lists passed (verify_owner_sound), with C04's chain theorems giving the meaning of 'the chain verifies'. Tied to the "
+             "code by running the library's fdo.TO2 against the real owner with a man in the middle that alters the 61 / 63 responses and the "
+             "to1d blob (bit flips over every byte, structured changes in four signing modes incl. re-signing with a stranger's and with the "
+             "real owner's key, swapped / foreign / renumbered entries, substituted messages of other devices and sessions) for chains of "
+             "1 and 3 entries, with and without to1d, and comparing 'did the device send 64' with the model's verdict on the delivered bytes.",
+        note=COMMON_NOTE + "The model covers the decision up to ProveDevice; later steps (SetupDevice handling, service info) are C02/C03/C16. The fact "
+             "kex_ok (suite valid/available and the owner's parameter answerable) is established by the harness. Unforgeability of the "
+             "primitives is not claimed.",
+        technique="Rocq proof (soundness of the device's decision procedure over received bytes) + differential correspondence with a man in the middle",
+        design="4 (C01), 9"),
     "C20": dict(
         text="Machine-checked theorems over the executable model of protocol.parseDirective/parseURLs/cbor.ArrayShift built on the CBOR "
              "decoder model: totality for every instruction list and role, other-role directives yield the zero directive, invariance under "
